@@ -1,17 +1,17 @@
 SPECIFICATION Spec
 CONSTANTS
-  Ent = {1, 2, 3, 4, 5, 6}
-  Tab <- TabU6
+  Ent = {1, 2, 3, 4, 5}
+  Tab <- TabU5
   Senders <- SendersABX
-  Cap = 3
-  PerSender = 2
-  MaxLast = 2
+  Cap = 2
+  PerSender = 1
+  MaxLast = 1
   MaxH = 2
-  MaxNow = 2
-  MaxBlk = 2
+  MaxNow = 1
+  MaxBlk = 1
   LevelFee = TRUE
-  TierAt = 2
-  Defects <- AllDefects
+  TierAt = 1
+  Defects <- TwoDefects
   MaxRm = 1
   QueryOn = FALSE
   SubW = 1
